@@ -1,3 +1,237 @@
-import DnsModel.Iter
+/-
+  C03 — Every accepted packet reads back completely and faithfully via the iterators.
+  Proved here, for every accepted packet (`parse p = .ok v`, object `PP.ofView p v`):
+  * the question walk yields exactly the question;
+  * the answer, authority and additional walks yield exactly the records the policy relation
+    describes, in wire order — with OPT included, and with OPT skipped wherever it sits;
+  * on every record so yielded, each accessor returns the value read off the bytes at the record's
+    positions (owner name = the labels the name relation assigns, in wire and in lowercase dotted
+    form; type, class, TTL, data length, data, address), and none of them panics.
+  Accessors are pure functions of the bytes in the model, so "alters no byte" is definitional.
+  Not proved here: the walk over the EDNS options (checked by correspondence only).
+-/
+import DnsModel.Lemmas.Walk
+import DnsModel.Theorems.C02
 namespace Dns.C03
+open Dns Res
+
+/-- the three record sections of an accepted packet, as lists of record positions -/
+structure Layout (p : Bytes) where
+  qe : Nat
+  answers : List RecPos
+  authority : List RecPos
+  additional : List RecPos
+  e2 : Nat
+  e3 : Nat
+  o2 : Bool
+  o3 : Bool
+  o4 : Bool
+  hq : NameEnds p 12 qe ∧ qe + 4 ≤ p.length
+  ha : RRsL p .answer answers (qe + 4) false e2 o2
+  hn : RRsL p .nameServers authority e2 o2 e3 o3
+  hr : RRsL p .additional additional e3 o3 p.length o4
+  na : answers.length = get16 p 6
+  nn : authority.length = get16 p 8
+  nr : additional.length = get16 p 10
+
+/-- an accepted packet has a layout, and `parse()` reports its section starts -/
+theorem accepted_layout {p : Bytes} {v : View} (h : parse p = .ok v) :
+    ∃ L : Layout p, v.offsetQuestion = some 12 ∧
+      v.offsetAnswers = (if L.answers.length > 0 then some (L.qe + 4) else none) ∧
+      v.offsetNameservers = (if L.authority.length > 0 then some L.e2 else none) ∧
+      v.offsetAdditional = (if L.additional.length > 0 then some L.e3 else none) ∧ 12 ≤ p.length := by
+  obtain ⟨hl, _, qe, e2, o2, e3, o3, o4, hne, hq4, _, ra, rn, rr, v1, v2, v3, v4⟩ := parse_ok_decomp h
+  obtain ⟨la, hla, hal⟩ := RRs_to_list ra
+  obtain ⟨ln, hln, hnl⟩ := RRs_to_list rn
+  obtain ⟨lr, hlr, hrl⟩ := RRs_to_list rr
+  exact ⟨⟨qe, la, ln, lr, e2, e3, o2, o3, o4, ⟨hne, hq4⟩, hal, hnl, hrl, hla, hln, hlr⟩,
+    v1, by simp [hla, v2], by simp [hln, v3], by simp [hlr, v4], hl⟩
+
+private theorem count_ok {p : Bytes} (h : 12 ≤ p.length) (i : Nat) (hi : i + 2 ≤ 12) : be16 p i = .ok (get16 p i) :=
+  (be16_ok_of_le (by omega)).1
+
+/-- **record sections.** On an accepted packet the walks visit exactly the records present:
+answers and authority in full; additional in full with OPT included, and minus OPT with OPT skipped. -/
+theorem walks_faithful {p : Bytes} {v : View} (h : parse p = .ok v) :
+    ∃ L : Layout p,
+      (∃ cs, collectWalk (PP.ofView p v) nextSkippingOpt (L.answers.length + 1) (Cursor.new .answer) = .ok cs ∧
+        cs.map posOf = (nonOpt p L.answers).map some) ∧
+      (∃ cs, collectWalk (PP.ofView p v) nextSkippingOpt (L.authority.length + 1) (Cursor.new .nameServers) = .ok cs ∧
+        cs.map posOf = (nonOpt p L.authority).map some) ∧
+      (∃ cs, collectWalk (PP.ofView p v) nextSkippingOpt (L.additional.length + 1) (Cursor.new .additional) = .ok cs ∧
+        cs.map posOf = (nonOpt p L.additional).map some) ∧
+      (∃ cs, collectWalk (PP.ofView p v) nextIncludingOpt (L.additional.length + 1) (Cursor.new .additional) = .ok cs ∧
+        cs.map posOf = L.additional.map some) := by
+  obtain ⟨L, _, v2, v3, v4, hl⟩ := accepted_layout h
+  have ia : secInfo (PP.ofView p v) .answer = .ok (L.answers.length, if L.answers.length > 0 then some (L.qe + 4) else none) := by
+    simp [secInfo, PP.ofView, ancount, count_ok hl 6 (by omega), L.na, v2]
+  have inn : secInfo (PP.ofView p v) .nameServers = .ok (L.authority.length, if L.authority.length > 0 then some L.e2 else none) := by
+    simp [secInfo, PP.ofView, nscount, count_ok hl 8 (by omega), L.nn, v3]
+  have ir : secInfo (PP.ofView p v) .additional = .ok (L.additional.length, if L.additional.length > 0 then some L.e3 else none) := by
+    simp [secInfo, PP.ofView, arcount, count_ok hl 10 (by omega), L.nr, v4]
+  exact ⟨L, walk_skip (pp := PP.ofView p v) L.ha ia, walk_skip (pp := PP.ofView p v) L.hn inn,
+    walk_skip (pp := PP.ofView p v) L.hr ir, walk_incl (pp := PP.ofView p v) L.hr ir⟩
+
+/-- answers and authority never contain OPT, so their walks are complete -/
+theorem no_opt_outside_additional {p : Bytes} {sec : Section} {l : List RecPos} {off e : Nat} {ob oe : Bool}
+    (h : RRsL p sec l off ob e oe) (hs : sec ≠ .additional) : nonOpt p l = l := by
+  apply nonOpt_eq_self
+  induction h with
+  | nil => intro r hr; simp at hr
+  | cons hr _ ih =>
+    intro r' hr'
+    simp at hr'
+    rcases hr' with rfl | hr'
+    · intro h41
+      have := hr.2.2.2.2
+      simp only [h41, if_true] at this
+      exact hs this.1
+    · exact ih r' hr'
+
+/-- **question walk**: the question, then the end -/
+theorem question_walk {p : Bytes} {v : View} (h : parse p = .ok v) :
+    ∃ qe, NameEnds p 12 qe ∧
+      collectWalk (PP.ofView p v) nextQuestion 2 (Cursor.new .question) =
+        .ok [⟨.question, some 12, qe + 4, qe, 0⟩] := by
+  obtain ⟨hl, hqd, qe, _, _, _, _, _, hne, hq4, _, _, _, _, v1, _⟩ := parse_ok_decomp h
+  refine ⟨qe, hne, ?_⟩
+  obtain ⟨ls, hv⟩ := hne
+  have hsk : skipName p 12 = .ok qe := skipName_valid hv.2.1 (by omega)
+  have hq : qdcount p = .ok 1 := by rw [qdcount, count_ok hl 4 (by omega), hqd]
+  have step1 : nextQuestion (PP.ofView p v) (Cursor.new .question) = .ok (some ⟨.question, some 12, qe + 4, qe, 0⟩) := by
+    unfold nextQuestion
+    simp [Cursor.new, PP.ofView, hq, v1, unwrap, assert, hsk, DNS_RR_QUESTION_HEADER_SIZE]
+  have step2 : nextQuestion (PP.ofView p v) ⟨.question, some 12, qe + 4, qe, 0⟩ = .ok none := by
+    unfold nextQuestion
+    simp
+  unfold collectWalk
+  rw [step1]
+  simp only
+  unfold collectWalk
+  rw [step2]
+  rfl
+
+/-- **accessors.** On a record of the policy, with the cursor the walk leaves on it: every accessor
+returns the value at the record's positions, and none panics. -/
+theorem accessors {p : Bytes} {sec : Section} {r : RecPos} {ob oa : Bool} (hr : RRAtPos p sec r ob oa)
+    (c : Cursor) (hc : posOf c = some r) :
+    ∃ ls, ValidName p r.off ls r.ne ∧
+      c.rawName p = .ok (encLabels ls ++ [0]) ∧
+      c.name p = .ok (lowerBytes (joinText [] ls)) ∧
+      c.rrType p = .ok (get16 p r.ne) ∧ c.rrClass p = .ok (get16 p (r.ne + 2)) ∧
+      c.rrTtl p = .ok (get32 p (r.ne + 4)) ∧ c.rrRdlen p = .ok (get16 p (r.ne + 8)) := by
+  obtain ⟨⟨ls, hv⟩, h10, hnext, hfit, _⟩ := hr
+  unfold posOf at hc
+  cases ho : c.offset with
+  | none => simp [ho] at hc
+  | some o =>
+    simp [ho] at hc
+    have e1 : o = r.off := by have := congrArg RecPos.off hc; simpa using this
+    have e2 : c.nameEnd = r.ne := by have := congrArg RecPos.ne hc; simpa using this
+    subst e1
+    have hgt : r.off < r.ne := hv.2.1.lt
+    have hsl : sliceFrom p r.ne = .ok (p.drop r.ne) := by simp [sliceFrom]; omega
+    have hnle : ¬ (r.ne ≤ r.off) := by omega
+    refine ⟨ls, hv, ?_, ?_, ?_, ?_, ?_, ?_⟩
+    · unfold Cursor.rawName
+      simp [ho, unwrap, e2, hnle, copyUncompressedName_valid hv]
+    · unfold Cursor.name
+      simp [ho, unwrap, e2, hnle, rawNameToStr_valid hv]
+    · rw [rrType_at ho (by omega), e2]
+    · unfold Cursor.rrClass
+      simp only [ho, unwrap, bind_ok, e2, hsl]
+      consts
+      exact (be16_ok_of_le (by omega)).1
+    · unfold Cursor.rrTtl be32
+      simp only [ho, unwrap, bind_ok, e2, hsl]
+      consts
+      rw [(be16_ok_of_le (p := p) (i := r.ne + 4) (by omega)).1, (be16_ok_of_le (p := p) (i := r.ne + 4 + 2) (by omega)).1]
+      simp [get32]
+    · unfold Cursor.rrRdlen
+      simp only [ho, unwrap, bind_ok, e2, hsl]
+      consts
+      exact (be16_ok_of_le (by omega)).1
+
+/-- the address accessor on an A / AAAA record of the policy: the 4 / 16 data bytes; `PropertyNotFound` otherwise -/
+theorem ip_accessor {p : Bytes} {sec : Section} {r : RecPos} {ob oa : Bool} (hr : RRAtPos p sec r ob oa)
+    (c : Cursor) (hc : posOf c = some r) :
+    c.rrIp p = (if get16 p r.ne = 1 ∨ get16 p r.ne = 28
+      then .ok ((p.drop (r.ne + 10)).take (get16 p (r.ne + 8))) else .err .propertyNotFound) := by
+  obtain ⟨ls, _, _, _, hty, _, _, _⟩ := accessors hr c hc
+  obtain ⟨_, h10, hnext, hfit, hbody⟩ := hr
+  unfold posOf at hc
+  cases ho : c.offset with
+  | none => simp [ho] at hc
+  | some o =>
+    simp [ho] at hc
+    have e2 : c.nameEnd = r.ne := by have := congrArg RecPos.ne hc; simpa using this
+    have hsl : sliceFrom p r.ne = .ok (p.drop r.ne) := by simp [sliceFrom]; omega
+    unfold Cursor.rrIp
+    simp only [hty, bind_ok, e2, hsl]
+    consts
+    by_cases h1 : get16 p r.ne = 1
+    · have hl4 : get16 p (r.ne + 8) = 4 := by
+        have h41 : ¬ (get16 p r.ne = 41) := by omega
+        simp only [h41, if_false] at hbody
+        have := hbody.1
+        simpa [RDataOK, h1] using this
+      have hok : decide ((p.drop r.ne).length ≥ 10 + 4) = true := by simp; omega
+      simp only [h1, beq_self_eq_true, if_true, assert, hok, bind_ok, true_or, hl4]
+      rw [slice_ok ⟨by omega, by omega⟩]
+      congr 2
+      omega
+    · have c1 : (get16 p r.ne == 1) = false := by simp [h1]
+      simp only [c1, Bool.false_eq_true, if_false]
+      by_cases h28 : get16 p r.ne = 28
+      · have hl16 : get16 p (r.ne + 8) = 16 := by
+          have h41 : ¬ (get16 p r.ne = 41) := by omega
+          simp only [h41, if_false] at hbody
+          have := hbody.1
+          simpa [RDataOK, h28] using this
+        have hok : decide ((p.drop r.ne).length ≥ 10 + 16) = true := by simp; omega
+        simp only [h28, beq_self_eq_true, if_true, assert, hok, bind_ok, or_true, hl16]
+        rw [slice_ok ⟨by omega, by omega⟩]
+        congr 2
+        omega
+      · have c2 : (get16 p r.ne == 28) = false := by simp [h28]
+        simp [c2, h1, h28]
+
+/-- the raw-data accessor: an address for A / AAAA, the `rdlen` bytes after the fixed header otherwise -/
+theorem data_accessor {p : Bytes} {sec : Section} {r : RecPos} {ob oa : Bool} (hr : RRAtPos p sec r ob oa)
+    (c : Cursor) (hc : posOf c = some r) :
+    c.rrRd p = (if get16 p r.ne = 1 ∨ get16 p r.ne = 28
+      then .ok (.ip ((p.drop (r.ne + 10)).take (get16 p (r.ne + 8))))
+      else .ok (.data ((p.drop (r.ne + 10)).take (get16 p (r.ne + 8))))) := by
+  have hip := ip_accessor hr c hc
+  obtain ⟨ls, _, _, _, _, _, _, hlen⟩ := accessors hr c hc
+  obtain ⟨_, h10, hnext, hfit, _⟩ := hr
+  unfold posOf at hc
+  cases ho : c.offset with
+  | none => simp [ho] at hc
+  | some o =>
+    simp [ho] at hc
+    have e2 : c.nameEnd = r.ne := by have := congrArg RecPos.ne hc; simpa using this
+    unfold Cursor.rrRd
+    by_cases hA : get16 p r.ne = 1 ∨ get16 p r.ne = 28
+    · simp only [hA, if_true] at hip ⊢
+      rw [hip]
+    · simp only [hA, if_false] at hip ⊢
+      rw [hip]
+      simp only [hlen, bind_ok, e2]
+      consts
+      rw [slice_ok ⟨by omega, by omega⟩]
+      simp only [bind_ok, pure_eq]
+      congr 3
+      omega
+
+/-! non-vacuity: a response with answers, an authority record and OPT between two additional records -/
+example : ∃ v, parse C02.okPacket = .ok v := (C02.parse_ok_iff_wf _).2 (by
+  exact (C02.parse_ok_iff_wf C02.okPacket).1 (by
+    have : (parse C02.okPacket).isOk = true := by decide
+    cases h : parse C02.okPacket with
+    | ok v => exact ⟨v, rfl⟩
+    | err e => simp [h, Res.isOk] at this
+    | panic => simp [h, Res.isOk] at this
+    | diverge => simp [h, Res.isOk] at this))
+
 end Dns.C03
